@@ -4,7 +4,9 @@
 //! resets in `'a` and `'b`, data inputs in `'a`, `'b` and the implicit domain, data outputs in
 //! `'a`, `'b` and un-annotated, two variables and one interface instance whose domain is explicit
 //! (`'a` / `'b`) or left to inference; 1..3 items in textual order, each a continuous assign
-//! (signal or `&` of two signals), an `always_comb` with an `if` on a signal, an `always_ff` on
+//! (signal, `&` of two signals, or a conditional expression `if c ? t : e` whose select and
+//! then-operand are a literal, a module parameter (both carry no domain) or a signal and whose
+//! else-operand is a signal), an `always_comb` with an `if` on a signal, an `always_ff` on
 //! one of the clocks, or an instance of a child (ports in one implicit child domain / ports in
 //! two explicit child domains with the crossing declared inside the child), each optionally inside
 //! `unsafe (cdc) { .. }`.
@@ -15,7 +17,9 @@
 //! the child's input), else the implicit domain.  An item is a crossing iff the signals it joins
 //! (destination, sources, condition, `always_ff` clock; the two sides of a child whose ports share
 //! a child domain) carry two different domains.  `mismatch_clock_domain` must be reported iff
-//! some item outside `unsafe (cdc)` is a crossing.
+//! some item outside `unsafe (cdc)` is a crossing.  An expression joins the domains of ALL its
+//! signal operands (both operands of `&`; select, then- and else-operand of a conditional
+//! expression, whatever the select evaluates to); literals and parameters carry no domain.
 //!
 //! The reading is validated against transcriptions of the repository's `clock_domain*` tests.
 
@@ -78,17 +82,39 @@ impl Sig {
 const SRCS: [Sig; 6] = [Sig::Ia, Sig::Ib, Sig::In, Sig::V, Sig::W, Sig::U];
 const DSTS: [Sig; 6] = [Sig::Oa, Sig::Ob, Sig::On, Sig::V, Sig::W, Sig::U];
 
+/// Operand of a conditional expression: a literal or the module parameter `P` (no clock
+/// domain), or a signal.
+#[derive(Clone, Copy, PartialEq, Eq, Debug, Hash, PartialOrd, Ord)]
+enum Opd {
+    Lit,
+    Par,
+    S(Sig),
+}
+
+impl Opd {
+    fn sig(self) -> Option<Sig> {
+        match self {
+            Opd::S(s) => Some(s),
+            _ => None,
+        }
+    }
+}
+
 #[derive(Clone, Copy, PartialEq, Eq, Debug, Hash, PartialOrd, Ord)]
 enum Ex {
     S(Sig),
     And(Sig, Sig),
+    /// `if c ? t : e`
+    Tern(Opd, Opd, Sig),
 }
 
 impl Ex {
+    /// the signal operands, in textual order
     fn sigs(self) -> Vec<Sig> {
         match self {
             Ex::S(a) => vec![a],
             Ex::And(a, b) => vec![a, b],
+            Ex::Tern(c, t, e) => c.sig().into_iter().chain(t.sig()).chain([e]).collect(),
         }
     }
 }
@@ -149,6 +175,14 @@ fn ex_text(e: Ex, tag: &str) -> String {
     match e {
         Ex::S(s) => s.text(tag),
         Ex::And(a, b) => format!("{} & {}", a.text(tag), b.text(tag)),
+        Ex::Tern(c, t, e) => {
+            let o = |x: Opd, lit: &str| match x {
+                Opd::Lit => lit.to_string(),
+                Opd::Par => "P".to_string(),
+                Opd::S(s) => s.text(tag),
+            };
+            format!("if {} ? {} : {}", o(c, "1'b1"), o(t, "1'b0"), e.text(tag))
+        }
     }
 }
 
@@ -204,7 +238,7 @@ fn render_module(d: &Design, tag: &str) -> String {
         }
     }
     format!(
-        "module Top{tag} (\n    i_clk_a: input 'a clock,\n    i_rst_a: input 'a reset,\n    i_clk_b: input 'b clock,\n    i_rst_b: input 'b reset,\n    i_a: input 'a logic,\n    i_b: input 'b logic,\n    i_n: input logic,\n    o_a: output 'a logic,\n    o_b: output 'b logic,\n    o_n: output logic,\n) {{\n{body}}}\n"
+        "module Top{tag} #(\n    param P: bit = 1,\n) (\n    i_clk_a: input 'a clock,\n    i_rst_a: input 'a reset,\n    i_clk_b: input 'b clock,\n    i_rst_b: input 'b reset,\n    i_a: input 'a logic,\n    i_b: input 'b logic,\n    i_n: input logic,\n    o_a: output 'a logic,\n    o_b: output 'b logic,\n    o_n: output logic,\n) {{\n{body}}}\n"
     )
 }
 
@@ -530,6 +564,39 @@ fn item_menu(level: u8) -> Vec<St> {
     v
 }
 
+/// Conditional expressions `dst = if c ? t : e`: select and then-operand over {literal, param,
+/// signals}, else-operand over signals, every destination the operands do not contain.
+/// level 0 (quick): signals i_a, i_b, v (+ i_n in the else-operand), destinations o_a, o_b, o_n, w;
+/// level 1: all sources and destinations of the family.
+fn ternary_menu(level: u8) -> Vec<St> {
+    let (csigs, esigs, dsts): (&[Sig], &[Sig], &[Sig]) = if level == 0 {
+        (
+            &[Sig::Ia, Sig::Ib, Sig::V],
+            &[Sig::Ia, Sig::Ib, Sig::In, Sig::V],
+            &[Sig::Oa, Sig::Ob, Sig::On, Sig::W],
+        )
+    } else {
+        (&SRCS, &SRCS, &DSTS)
+    };
+    let mut opds = vec![Opd::Lit, Opd::Par];
+    opds.extend(csigs.iter().map(|s| Opd::S(*s)));
+    let mut v = vec![];
+    for c in &opds {
+        for t in &opds {
+            for e in esigs {
+                for dst in dsts {
+                    let ex = Ex::Tern(*c, *t, *e);
+                    if ex.sigs().contains(dst) {
+                        continue;
+                    }
+                    v.push(St::Assign { dst: *dst, ex });
+                }
+            }
+        }
+    }
+    v
+}
+
 fn ann_menu() -> Vec<[Option<Dom>; 3]> {
     let o = [None, Some(Dom::A), Some(Dom::B)];
     let mut v = vec![];
@@ -568,6 +635,9 @@ fn tiny_menu() -> Vec<St> {
     }
     v.push(St::Assign { dst: Sig::On, ex: Ex::And(Sig::V, Sig::In) });
     v.push(St::Assign { dst: Sig::Oa, ex: Ex::And(Sig::Ia, Sig::V) });
+    // conditional expressions: the only signal in the else-operand (a driver of v / a reader of v)
+    v.push(St::Assign { dst: Sig::V, ex: Ex::Tern(Opd::Par, Opd::Lit, Sig::Ib) });
+    v.push(St::Assign { dst: Sig::Oa, ex: Ex::Tern(Opd::Lit, Opd::Par, Sig::V) });
     for clk in [Dom::A, Dom::B] {
         v.push(St::Ff { clk, dst: Sig::V, src: Sig::Ia });
         v.push(St::Ff { clk, dst: Sig::W, src: Sig::V });
@@ -595,6 +665,12 @@ fn family(thorough: bool) -> Family {
         [Some(Dom::A), Some(Dom::B), Some(Dom::A)],
     ];
     let mut subs = vec![];
+    // first, so that its chunks lead every round of the interleaved order
+    if thorough {
+        subs.push(("one_ternary".to_string(), anns.clone(), vec![ternary_menu(1)]));
+    } else {
+        subs.push(("one_ternary".to_string(), anns_few.clone(), vec![ternary_menu(0)]));
+    }
     subs.push(("one".to_string(), anns.clone(), vec![full.clone()]));
     if thorough {
         subs.push(("two".to_string(), anns_few.clone(), vec![full.clone(), full.clone()]));
@@ -654,6 +730,8 @@ fn pinned_tests() -> Vec<(&'static str, Design, bool)> {
         ("interface instance: un-annotated, a -> u -> b", Design { ann: none, items: vec![it(St::Assign { dst: Sig::U, ex: Ex::S(Sig::Ia) }), it(St::Assign { dst: Sig::Ob, ex: Ex::S(Sig::U) })] }, true),
         ("interface instance: un-annotated, a -> u -> a", Design { ann: none, items: vec![it(St::Assign { dst: Sig::U, ex: Ex::S(Sig::Ia) }), it(St::Assign { dst: Sig::Oa, ex: Ex::S(Sig::U) })] }, false),
         ("statement condition from another domain", Design { ann: none, items: vec![it(St::CombIf { cond: Sig::Ib, dst: Sig::Oa, src: Sig::Ia })] }, true),
+        ("ModuleTernary: o_b = if i_a ? v('a) : w('a)", Design { ann: [Some(Dom::A), Some(Dom::A), None], items: vec![it(St::Assign { dst: Sig::Ob, ex: Ex::Tern(Opd::S(Sig::Ia), Opd::S(Sig::V), Sig::W) })] }, true),
+        ("ModuleSameDomain (its conditional expression): o_a = if i_a ? v('a) : w('a)", Design { ann: [Some(Dom::A), Some(Dom::A), None], items: vec![it(St::Assign { dst: Sig::Oa, ex: Ex::Tern(Opd::S(Sig::Ia), Opd::S(Sig::V), Sig::W) })] }, false),
         ("Module61A: unsafe (cdc) assign o_b = i_a", Design { ann: none, items: vec![un(St::Assign { dst: Sig::Ob, ex: Ex::S(Sig::Ia) })] }, false),
         ("synchronizer: unsafe (cdc) always_ff", Design { ann: [Some(Dom::B), None, None], items: vec![un(St::Ff { clk: Dom::B, dst: Sig::V, src: Sig::Ia })] }, false),
     ]
@@ -713,7 +791,8 @@ fn classify(d: &Design, info: &RefInfo, fp: bool) -> Vec<String> {
     for k in idx {
         kinds.insert(match d.items[k].st {
             St::Assign { ex: Ex::S(_), .. } => "assign",
-            St::Assign { .. } => "assign-binary",
+            St::Assign { ex: Ex::And(..), .. } => "assign-binary",
+            St::Assign { ex: Ex::Tern(..), .. } => "assign-ternary",
             St::CombIf { .. } => "always_comb-if",
             St::Ff { .. } => "always_ff",
             St::Inst { child: Child::Same, .. } => "inst-implicit-child",
